@@ -48,29 +48,33 @@ def fallible(b):
 
 def check(prog, run):
     run.rule("R1", "error-path purity: no store to receiver state reaches an error exit, in every fallible state-receiving function on the frame-writing paths")
+    purity_rule(prog, run, "R1")
+
+
+def purity_rule(prog, run, R):
     try:
         cx = common.Ctx(prog)
     except AnchorMissing as e:
-        run.bad("R1", "anchor", "anchor missing: %s" % e)
+        run.bad(R, "anchor", "anchor missing: %s" % e)
         return
     u = cx.u
     missing = [e for e in ENTRIES if e not in u.bodies]
     for m in missing:
-        run.bad("R1", "entry %s" % mir.norm(m), "public frame-writing entry point not found")
+        run.bad(R, "entry %s" % mir.norm(m), "public frame-writing entry point not found")
     fs = sorted(f for f in state_functions(cx, ENTRIES) if fallible(u.bodies[f]))
-    run.floor("R1", len(fs), 9, "fallible state-receiving functions")
+    run.floor(R, len(fs), 9, "fallible state-receiving functions")
     total_sites = total_exits = 0
     for f in fs:
         v, ns, ne = purity.check_function(cx, f)
         total_sites += ns
         total_exits += ne
         if not v:
-            run.ok("R1", "pure %s" % mir.norm(f), "%d store site(s) x %d error exit(s): no store reaches an error exit" % (ns, ne), mir.loc_of(u.bodies[f]))
+            run.ok(R, "pure %s" % mir.norm(f), "%d store site(s) x %d error exit(s): no store reaches an error exit" % (ns, ne), mir.loc_of(u.bodies[f]))
         for x in v:
-            run.bad("R1", "impure %s store=%s exit=%s" % (mir.norm(f), x["store"], x["exit"]),
+            run.bad(R, "impure %s store=%s exit=%s" % (mir.norm(f), x["store"], x["exit"]),
                     "state `%s` is written (%s, %s) on a path that then fails with %s at %s: the rejected call leaves a trace"
                     % (x["store"], x["why"], x["loc_store"], x["exit"], x["loc_exit"]), x["loc_store"],
                     path={"function": mir.norm(f), "store_at": x["loc_store"], "error_exit_at": x["loc_exit"]})
     run.extra["store_sites"] = total_sites
     run.extra["error_exits"] = total_exits
-    run.floor("R1", total_exits, 40, "error exits examined")
+    run.floor(R, total_exits, 40, "error exits examined")
